@@ -85,17 +85,18 @@ func TestConnect(t *testing.T) {
 // The same judgement in chain states reached through reorganisations: blocks are mined on any known block, withheld,
 // delivered late; what a branch's blocks spend was restored from undo data when the other branch was disconnected.
 var forkProfile = sim.Profile{
-	Forks:      true,
-	Viols:      sim.TxViolations,
-	ViolPct:    25,
-	MaxTx:      5,
-	MinOps:     10,
-	MaxOps:     50,
-	Prefixes:   []int{0, 99, 100, 101, 102, 104, 110},
-	IdlePct:    4,
-	RedelivPct: 2,
-	Halving:    true,
-	Signed:     true,
+	Forks:        true,
+	Viols:        sim.TxViolations,
+	ViolPct:      25,
+	MaxTx:        5,
+	MinOps:       10,
+	MaxOps:       50,
+	Prefixes:     []int{0, 99, 100, 101, 102, 104, 110},
+	IdlePct:      4,
+	RedelivPct:   2,
+	Halving:      true,
+	UnwindWindow: true,
+	Signed:       true,
 }
 
 func TestConnectAfterReorg(t *testing.T) {
@@ -170,6 +171,9 @@ func connectPre(t *testing.T, cfg pbt.Cfg, p sim.Profile, pre func()) {
 			}
 			if s.Reorgs > 0 {
 				r.Class("has_reorg")
+				if b := c.Params.Base; b > 2000 && b < 3000 && s.Tip.Idx.Height > 2561 {
+					r.Class("reorg_while_undo_files_leave_the_unwind_window")
+				}
 			}
 			if s.FailedReorgs > 0 {
 				r.Class("has_failed_reorg")
